@@ -51,7 +51,7 @@ CHECKS = {
     "C11": ex("generated fault sets applied to generated databases; set-based oracle for detection (iff), file-content oracle after Repair",
               "After a generated history the directory is damaged from outside (files removed/added, index entries removed, schema removed, internal inconsistency); detection must match the set difference exactly (no false positives on healthy databases of any configuration), Repair must not touch object files and must make every read path equal predicates on decoded file contents.",
               "DESIGN.md §4 C11"),
-    "C12": ex("differential PBT: one generated program under two independently drawn configurations, normalised traces compared line by line",
+    "C12": ex("differential PBT: one generated program under two independently drawn configurations, normalised traces compared line by line; plus the same differential on collections of about 9000 objects",
               "Includes Exist on fresh writes, spoilt queries (invalid pattern, mistyped probe, unknown operator/field) on empty and non-empty collections, and Control once nothing is pending.",
               "DESIGN.md §4 C12"),
     "C13": ex("model-based PBT on tie-heavy collections: key-sequence oracle for order, Reverse, Limit, One, AssignIndex",
